@@ -64,6 +64,14 @@ type c06History struct {
 	rendezvous bool
 }
 
+// c06ExecAtClose: the extra call of the "exec-at-close" histories.
+func c06ExecAtClose(history, tag string) *rig.ExecSpec {
+	if !strings.HasPrefix(history, "exec-at-close:") {
+		return nil
+	}
+	return &rig.ExecSpec{RunID: tag + "-late", StepID: "echo2", Input: echoIn(tag+"-late", nil), NoSigCh: true}
+}
+
 func c06Histories() []c06History {
 	ex := func(tag, run, step string, extra map[string]any) rig.ExecSpec {
 		return rig.ExecSpec{RunID: tag + "-" + run, StepID: step, Input: echoIn(tag+"-"+run, extra), NoSigCh: true}
@@ -142,6 +150,9 @@ func c06Histories() []c06History {
 			// waiting for it; a second call with that run ID arrives in between (it is refused: the ID is in use
 			// until the first call has collected its result)
 			return [][]rig.ExecSpec{{ex(t, "a", "echo", nil), ex(t, "a", "echo2", nil)}, {ex(t, "a", "echo", nil)}}
+		}, false, false},
+		{"exec-at-close: a call issued while Close is being called on an idle client", func(t string) [][]rig.ExecSpec {
+			return [][]rig.ExecSpec{{ex(t, "a", "echo", nil)}}
 		}, false, false},
 		{"nan-and-inf-inputs-then-close", func(t string) [][]rig.ExecSpec {
 			return [][]rig.ExecSpec{{ex(t, "a", "echo", map[string]any{"payload": 0.5})}, {ex(t, "b", "echo", map[string]any{"payload": math.NaN()})}, {ex(t, "c", "echo", map[string]any{"payload": []any{math.Inf(1), math.Inf(-1)}})}}
@@ -332,7 +343,7 @@ func runC06(c *wk.Ctx) {
 				bm.c2s, bm.s2c = rig.ModeSync, rig.ModeSync
 			}
 			res := rig.RunSession(rig.SessionSpec{C2S: bm.c2s, S2C: bm.s2c, ChunkSeed: uint64(rep + 1), Groups: h.groups(fmt.Sprintf("base%d", rep)), CloseOverlap: h.closeOverlap,
-				LateClientWrites: strings.HasPrefix(h.name, "late-writes:")})
+				LateClientWrites: strings.HasPrefix(h.name, "late-writes:"), ExecAtClose: c06ExecAtClose(h.name, fmt.Sprintf("base%d", rep)), PluginExits: strings.HasPrefix(h.name, "exec-at-close:")})
 			if res.Monitor.Outcome != "done" {
 				// the unperturbed history itself does not complete: judged as a case below (schedule empty)
 				continue
@@ -508,6 +519,8 @@ func runC06(c *wk.Ctx) {
 		}
 		spec := rig.SessionSpec{C2S: m.c2s, S2C: m.s2c, ChunkSeed: r.U64(), Groups: h.groups(fmt.Sprintf("c%d", idx)), Sched: sched, Lifo: r.Bool(), CloseOverlap: h.closeOverlap, PausesFirst: r.Bool()}
 		spec.LateClientWrites = strings.HasPrefix(h.name, "late-writes:")
+		spec.ExecAtClose = c06ExecAtClose(h.name, fmt.Sprintf("c%d", idx))
+		spec.PluginExits = spec.ExecAtClose != nil // (a call that loses the race against Close learns of it when the plugin has gone)
 		if cr.kind == 3 && cr.k >= 12 {
 			// the client's read loop as the slowest stage: the plugin's replies queue up
 			spec.SlowClientReads = []int{1000, 4000, 16000}[(cr.k/3)%3]
